@@ -80,6 +80,7 @@ type Remote struct {
 
 	mu      sync.Mutex
 	pending map[string]pendingMsg
+	done    chan struct{} // closed when Serve returns
 }
 
 // clearPending removes num oldest entries, must hold the r.mu lock.
@@ -133,6 +134,7 @@ func (r *Remote) handleRequest(msg *Message) error {
 }
 
 func (r *Remote) Serve() error {
+	defer r.markDone()
 	for {
 		msg, err := r.Codec.ReadMessage()
 		if err != nil {
@@ -146,6 +148,31 @@ func (r *Remote) Serve() error {
 		} else {
 			logger.Printf("Remote.Serve(): Dropping invalid message: %s", msg)
 		}
+	}
+}
+
+// Done returns a channel that is closed once Serve has returned, that is when
+// the connection is gone. Requests of that connection may still be in the
+// middle of being handled at that point.
+func (r *Remote) Done() <-chan struct{} {
+	r.mu.Lock()
+	defer r.mu.Unlock()
+	if r.done == nil {
+		r.done = make(chan struct{})
+	}
+	return r.done
+}
+
+func (r *Remote) markDone() {
+	r.mu.Lock()
+	defer r.mu.Unlock()
+	if r.done == nil {
+		r.done = make(chan struct{})
+	}
+	select {
+	case <-r.done:
+	default:
+		close(r.done)
 	}
 }
 
